@@ -2,10 +2,12 @@ SPECIFICATION TSpec
 CONSTANTS
   GuardTrain = TRUE
 INVARIANT GridOK
+INVARIANT GridSound
 INVARIANT FixedOK
 INVARIANT RunMinsOK
 INVARIANT RunOutcomeOK
 INVARIANT RunSplitsOK
+INVARIANT RunSplitsSound
 INVARIANT TMinimumIsCeil
 INVARIANT TGateExact
 INVARIANT TDuplicatesRejected
